@@ -14,16 +14,9 @@ global size_of usize == 8;
 //@@ include prelude/spec_zmtp.rs
 //@@ include prelude/message_items.rs
 
-#[verifier::external_type_specification]
-#[verifier::external_body]
-pub struct ExIoError(std::io::Error);
-
-//@ item src/codec/error.rs :: enum CodecError
-//@ end
+//@@ include prelude/codec_types.rs
 
 // ---- mechanism (src/codec/mechanism.rs) ----
-//@ item src/codec/mechanism.rs :: enum ZmqMechanism
-//@ end
 
 pub open spec fn mech_name(m: ZmqMechanism) -> Seq<u8> {
     match m {
@@ -66,10 +59,6 @@ impl vstd::std_specs::convert::TryFromSpecImpl<&[u8]> for ZmqMechanism {
 //@ end
 
 // ---- greeting (src/codec/greeting.rs) ----
-//@ item src/codec/greeting.rs :: type ZmtpVersion
-//@ end
-//@ item src/codec/greeting.rs :: struct ZmqGreeting
-//@ end
 
 /// RFC 23 greeting grammar: what a 64 octet block must look like, and what it means
 pub open spec fn rfc_greeting_parse(g: Seq<u8>) -> Option<ZmqGreeting> {
@@ -97,10 +86,6 @@ impl vstd::std_specs::convert::TryFromSpecImpl<Bytes> for ZmqGreeting {
 //@ end
 
 // ---- command (src/codec/command.rs): parser is outside Verus (byte-string patterns) ----
-//@ item src/codec/command.rs :: enum ZmqCommandName
-//@ end
-//@ item src/codec/command.rs :: struct ZmqCommand
-//@ end
 /// the octets a command value was parsed from (ghost link between wire and value)
 pub uninterp spec fn cmd_body(c: &ZmqCommand) -> Seq<u8>;
 /// RFC 23 validity of a command body (name-size name *property); kept abstract in this unit
@@ -122,9 +107,6 @@ impl vstd::std_specs::convert::TryFromSpecImpl<Bytes> for ZmqCommand {
 //@|            r is Err ==> !rfc_command_ok(b_view(&buf)),
 //@ end
 
-// ---- Message (src/codec/mod.rs) ----
-//@ item src/codec/mod.rs :: enum Message
-//@ end
 
 impl vstd::std_specs::convert::FromSpecImpl<Bytes> for ZmqMessage {
     open spec fn obeys_from_spec() -> bool { false }
